@@ -41,47 +41,116 @@ def _word(off, bit):
     return off * 8 + bit
 
 
-def rule_gfx(ctx, res, sizes):
-    w = codecs.gfx_writer_layout(ctx)
-    f = w['func']
+def _part(res, rule, what, fn):
+    try:
+        fn()
+    except AnalysisError as e:
+        res.undecided(rule, what, 'analysis', str(e))
+
+
+RULE_OF = {'gfx': 'R-C16-gfx', 'gff': 'R-C16-hexrows', 'map': 'R-C16-hexrows',
+           'sfx': 'R-C16-sfx', 'music': 'R-C16-music'}
+
+
+def rule_lines_evaluated(ctx, res, sizes):
+    """whole-function evaluation of every section codec (absint/cx.py): the
+    text to_lines() produces from symbolic memory is compared character by
+    character with the reference encoding, and from_lines() applied to the
+    reference encoding must give the memory back.
+    -> {section: set of directions decided}"""
+    from . import cxcodecs as XC
+    decided = {}
+    for sec in ('gfx', 'gff', 'map', 'sfx', 'music'):
+        rule = RULE_OF[sec]
+        if sizes.get(sec) != ref.REGION_SIZE[sec]:
+            continue
+        try:
+            se = XC.evaluate(ctx, sec, sizes[sec])
+        except AnalysisError:
+            continue
+        done = set()
+        wf = ctx.model.lookup_method(se.cls, 'to_lines')
+        rf = ctx.model.lookup_method(se.cls, 'from_lines')
+        if isinstance(se.writer, AnalysisError):
+            res.info(rule, se.cls.qual, sec + ': writer not followed by the '
+                     'whole-function evaluation', str(se.writer)[:160])
+        else:
+            d = se.writer_diff()
+            res.check(d is None, rule, se.cls.qual,
+                      '{} writer: to_lines(memory) is the reference text for '
+                      'every content of the {} bytes'.format(sec, se.size),
+                      '{} lines'.format(len(se.want_lines)),
+                      '{} section is not written in the PICO-8 format: '
+                      '{}'.format(sec, d), wf.loc if wf else '')
+            done.add('writer')
+        if isinstance(se.reader_ref, AnalysisError):
+            res.info(rule, se.cls.qual, sec + ': reader not followed by the '
+                     'whole-function evaluation', str(se.reader_ref)[:160])
+        else:
+            skip = set(ref.MUSIC_UNREPRESENTABLE) if sec == 'music' else set()
+            d = se.mem_diff(se.reader_ref, skip)
+            res.check(d is None, rule, se.cls.qual,
+                      '{} reader: from_lines(reference text of memory) == '
+                      'memory for every content'.format(sec), '',
+                      '{} section is not read per the PICO-8 format: '
+                      '{}'.format(sec, d), rf.loc if rf else '')
+            done.add('reader')
+        decided[sec] = done
+    return decided
+
+
+def rule_gfx(ctx, res, sizes, skip=()):
     ev = ctx.consts
     hl = ev.class_const(ctx.model.cls('pico8.gfx.gfx:Gfx'),
                         'HEX_LINE_LENGTH_BYTES')
-    ok = w['digit0_bits'] == [0, 1, 2, 3] and \
-        w['digit1_bits'] == [4, 5, 6, 7] and w['seq_ok'] and w['hexed'] and \
-        'HEX_LINE_LENGTH_BYTES' in (w['step'] or '')
-    res.check(ok, 'R-C16-gfx', f.qual,
-              'writer: digit 2k = low nibble (pixel 2k), digit 2k+1 = high '
-              'nibble', 'bytes in address order, one row per {} '
-              'bytes'.format(hl),
-              'gfx row digits carry memory bits {} / {}: pixels are not in '
-              'screen order'.format(w['digit0_bits'], w['digit1_bits']),
-              f.loc)
+
+    def writer():
+        w = codecs.gfx_writer_layout(ctx)
+        f = w['func']
+        ok = w['digit0_bits'] == [0, 1, 2, 3] and \
+            w['digit1_bits'] == [4, 5, 6, 7] and w['seq_ok'] and \
+            w['hexed'] and 'HEX_LINE_LENGTH_BYTES' in (w['step'] or '')
+        res.check(ok, 'R-C16-gfx', f.qual,
+                  'writer: digit 2k = low nibble (pixel 2k), digit 2k+1 = '
+                  'high nibble', 'bytes in address order, one row per {} '
+                  'bytes'.format(hl),
+                  'gfx row digits carry memory bits {} / {}: pixels are not '
+                  'in screen order'.format(w['digit0_bits'],
+                                           w['digit1_bits']), f.loc)
+
+    def reader():
+        r = codecs.gfx_reader_layout(ctx)
+        g = r['func']
+        ok = r['swap'] == (0, 2 * hl, 2) and r['fromhex'] and \
+            r['listed'] and r['filter'] == 2 * hl + 1
+        res.check(ok, 'R-C16-gfx', g.qual,
+                  'reader: digit pairs swapped then hex-decoded',
+                  'byte m = (digit 2m+1)<<4 | digit 2m, for all {} digits; '
+                  'rows of {} characters'.format(2 * hl, 2 * hl + 1),
+                  'gfx reader: swap range {} / filter {} / fromhex {} do not '
+                  'implement "pixel 2m = low nibble of byte m" for {}-byte '
+                  'rows'.format(r['swap'], r['filter'], r['fromhex'], hl),
+                  g.loc)
+
+    if 'writer' not in skip:
+        _part(res, 'R-C16-gfx', 'Gfx.to_lines', writer)
     res.check(hl == ref.P8_BYTES_PER_LINE['gfx'] and
               sizes.get('gfx', 0) % hl == 0, 'R-C16-gfx',
               'pico8.gfx.gfx:Gfx', '64 bytes (128 pixels) per row',
               '', 'gfx rows hold {} bytes'.format(hl))
-    r = codecs.gfx_reader_layout(ctx)
-    g = r['func']
-    ok = r['swap'] == (0, 2 * hl, 2) and r['fromhex'] and r['listed'] and \
-        r['filter'] == 2 * hl + 1
-    res.check(ok, 'R-C16-gfx', g.qual,
-              'reader: digit pairs swapped then hex-decoded',
-              'byte m = (digit 2m+1)<<4 | digit 2m, for all {} digits; rows '
-              'of {} characters'.format(2 * hl, 2 * hl + 1),
-              'gfx reader: swap range {} / filter {} / fromhex {} do not '
-              'implement "pixel 2m = low nibble of byte m" for {}-byte '
-              'rows'.format(r['swap'], r['filter'], r['fromhex'], hl), g.loc)
+    if 'reader' not in skip:
+        _part(res, 'R-C16-gfx', 'Gfx.from_lines', reader)
 
 
-def rule_hexrows(ctx, res, sizes):
+def rule_hexrows(ctx, res, sizes, skip=()):
     model, ev = ctx.model, ctx.consts
     for name, clsq in (('gff', 'pico8.gff.gff:Gff'),
                        ('map', 'pico8.map.map:Map')):
         c = model.cls(clsq)
         hl = ev.class_const(c, 'HEX_LINE_LENGTH_BYTES')
-        inherits = 'to_lines' not in c.methods and (
-            'from_lines' not in c.methods or name == 'map')
+        inherits = ('writer' in skip and 'reader' in skip) or (
+            'to_lines' not in c.methods and (
+                'from_lines' not in c.methods or name == 'map'))
         res.check(hl == ref.P8_BYTES_PER_LINE[name] and
                   sizes.get(name, 1) % hl == 0 and inherits,
                   'R-C16-hexrows', clsq,
@@ -91,6 +160,8 @@ def rule_hexrows(ctx, res, sizes):
                   'the plain codec'.format(name, hl,
                                            ref.P8_BYTES_PER_LINE[name]),
                   c.module.loc(c.node))
+    if 'writer' in skip and 'reader' in skip:
+        return
     b = model.func('pico8.util:BaseSection.to_lines')
     src = ast.unparse(b.node).replace(' ', '')
     ok = 'bytes_to_hex(bytes(self._data[start_i:end_i]))' in src and \
@@ -143,7 +214,7 @@ def expected_sfx_note_digits():
     ]
 
 
-def rule_sfx(ctx, res, sizes):
+def rule_sfx(ctx, res, sizes, skip=()):
     S = 'pico8.sfx.sfx:Sfx'
     # RAM note layout from get_note
     r = {'id': (0, 63), 'note': (0, 31)}
@@ -197,153 +268,210 @@ def rule_sfx(ctx, res, sizes):
                       name, ref.SFX_NOTE_BITS[name]), '',
                   'set_note writes {} to word bits {} (format: {})'.format(
                       name, placed, want), s.loc)
-    # line writer
-    w = codecs.sfx_writer_layout(ctx)
-    f = w['func']
-    hdr_want = []
-    for nm in ref.SFX_LINE_HEADER_ORDER:
-        off = ref.SFX_HEADER_OFFSETS[nm]
-        hdr_want.append([('self._data', off, b) for b in (4, 5, 6, 7)])
-        hdr_want.append([('self._data', off, b) for b in (0, 1, 2, 3)])
-    res.check(w['header'] == hdr_want, 'R-C16-sfx', f.qual,
-              'line header = bytes 64..67 (mode, speed, loop start, loop '
-              'end)', '', 'sfx line header digits carry {}'.format(
-                  w['header'][:4]), f.loc)
-    res.check(w['note'] == expected_sfx_note_digits(), 'R-C16-sfx', f.qual,
-              'note digits = pitch(2) waveform volume effect', '',
-              'sfx note digits carry memory bits {}'.format(w['note']),
-              f.loc)
-    if not w['tail_ok']:
-        res.undecided('R-C16-sfx', f.qual, 'line assembled from the digit '
-                      'buffer + newline', 'the yield of Sfx.to_lines is not '
-                      "b''.join(<buffer>) + b'\\n'", f.loc)
-    res.check(w['patterns'] == (0, ref.SFX_PATTERNS, 1) and
-              w['notes'] == (0, ref.SFX_NOTES, 1) and
-              sizes.get('sfx') == ref.SFX_PATTERNS * ref.SFX_BYTES,
-              'R-C16-sfx', f.qual, '64 patterns x 32 notes, 68-byte stride',
-              '', 'pattern / note counts are {} / {}'.format(
-                  w['patterns'], w['notes']), f.loc)
-    # line reader
-    rd = codecs.sfx_reader_layout(ctx)
-    g2 = rd['func']
-    ok = rd['filter'] == 8 + 5 * ref.SFX_NOTES + 1 and \
-        rd['irange'] == (8, 8 + 5 * ref.SFX_NOTES, 5) and rd['id_inc'] and \
-        rd['note_inc']
-    res.check(ok, 'R-C16-sfx', g2.qual,
-              'reader walks 32 five-digit notes from digit 8 of 169-char '
-              'lines', '', 'sfx reader geometry: filter {} range {}'.format(
-                  rd['filter'], rd['irange']), g2.loc)
-    # header stores: byte 64+k <- digits 2k, 2k+1
-    hdr_ok = len(rd['hdr_stores']) == 4
-    idb = Aff({rd['id_var']: 68}, 0)
-    for (arr, idx, bv, node) in rd['hdr_stores']:
-        d = idx - idb
-        if not d.is_const() or not 64 <= d.const <= 67:
-            hdr_ok = False
-            continue
-        k = d.const - 64
-        for bit in range(8):
-            a = LY.cell_single(bv.cell(bit))
-            p = codecs.digit_atom_pos(a) if a else None
-            wantp = ('abs', 2 * k + (0 if bit >= 4 else 1), bit % 4)
-            if p != wantp:
+    def writer():
+        # line writer
+        w = codecs.sfx_writer_layout(ctx)
+        f = w['func']
+        hdr_want = []
+        for nm in ref.SFX_LINE_HEADER_ORDER:
+            off = ref.SFX_HEADER_OFFSETS[nm]
+            hdr_want.append([('self._data', off, b) for b in (4, 5, 6, 7)])
+            hdr_want.append([('self._data', off, b) for b in (0, 1, 2, 3)])
+        res.check(w['header'] == hdr_want, 'R-C16-sfx', f.qual,
+                  'line header = bytes 64..67 (mode, speed, loop start, loop '
+                  'end)', '', 'sfx line header digits carry {}'.format(
+                      w['header'][:4]), f.loc)
+        res.check(w['note'] == expected_sfx_note_digits(), 'R-C16-sfx', f.qual,
+                  'note digits = pitch(2) waveform volume effect', '',
+                  'sfx note digits carry memory bits {}'.format(w['note']),
+                  f.loc)
+        if not w['tail_ok']:
+            res.undecided('R-C16-sfx', f.qual, 'line assembled from the digit '
+                          'buffer + newline', 'the yield of Sfx.to_lines is not '
+                          "b''.join(<buffer>) + b'\\n'", f.loc)
+        res.check(w['patterns'] == (0, ref.SFX_PATTERNS, 1) and
+                  w['notes'] == (0, ref.SFX_NOTES, 1) and
+                  sizes.get('sfx') == ref.SFX_PATTERNS * ref.SFX_BYTES,
+                  'R-C16-sfx', f.qual, '64 patterns x 32 notes, 68-byte stride',
+                  '', 'pattern / note counts are {} / {}'.format(
+                      w['patterns'], w['notes']), f.loc)
+
+    def reader():
+        # line reader
+        rd = codecs.sfx_reader_layout(ctx)
+        g2 = rd['func']
+        ok = rd['filter'] == 8 + 5 * ref.SFX_NOTES + 1 and \
+            rd['irange'] == (8, 8 + 5 * ref.SFX_NOTES, 5) and rd['id_inc'] and \
+            rd['note_inc']
+        res.check(ok, 'R-C16-sfx', g2.qual,
+                  'reader walks 32 five-digit notes from digit 8 of 169-char '
+                  'lines', '', 'sfx reader geometry: filter {} range {}'.format(
+                      rd['filter'], rd['irange']), g2.loc)
+        # header stores: byte 64+k <- digits 2k, 2k+1
+        hdr_ok = len(rd['hdr_stores']) == 4
+        idb = Aff({rd['id_var']: 68}, 0)
+        for (arr, idx, bv, node) in rd['hdr_stores']:
+            d = idx - idb
+            if not d.is_const() or not 64 <= d.const <= 67:
                 hdr_ok = False
-    res.check(hdr_ok, 'R-C16-sfx', g2.qual,
-              'reader: digits 0-7 -> bytes 64..67', '',
-              'sfx header digits are stored elsewhere', g2.loc)
-    # note stores
-    nb = Aff({rd['id_var']: 68, rd['note_var']: 2}, 0)
-    got_bits = {}
-    for (arr, idx, bv, node) in rd['note_stores']:
-        d = idx - nb
-        if not d.is_const() or d.const not in (0, 1):
-            got_bits[('bad', str(idx))] = None
-            continue
-        for bit in range(8):
-            c = bv.cell(bit)
-            a = LY.cell_single(c)
-            if a is None:
                 continue
-            p = codecs.digit_atom_pos(a, rd['note_var'], 8, 5)
-            if p and p[0] == 'note':
-                got_bits[_word(d.const, bit)] = (p[1], p[2])
-    want_bits = {}
-    for di, cells in enumerate(expected_sfx_note_digits()):
-        for b, c in enumerate(cells):
-            if c[0] == 'self._data':
-                want_bits[_word(c[1], c[2])] = (di, b)
-    res.check(got_bits == want_bits, 'R-C16-sfx', g2.qual,
-              'reader: note digits -> RAM note bits per the format', '',
-              'sfx reader: RAM note bit <- (digit, bit) differs from the '
-              'format at {}'.format(sorted(
-                  (k, got_bits.get(k), want_bits.get(k))
-                  for k in set(got_bits) | set(want_bits)
-                  if got_bits.get(k) != want_bits.get(k))[:6]), g2.loc)
-
-
-def rule_music(ctx, res, sizes):
-    w = codecs.music_writer_layout(ctx)
-    f = w['func']
-    Z = ('const', 0)
-    flags = [Z, Z, Z]
-    for byte, fbit in ref.MUSIC_FLAG_OF_BYTE.items():
-        flags[fbit] = ('self._data', byte, 7)
-    want = [[Z, Z, Z, Z], flags + [Z], ('lit', b' ')]
-    for k in range(4):
-        want.append([('self._data', k, 4), ('self._data', k, 5),
-                     ('self._data', k, 6), Z])
-        want.append([('self._data', k, b) for b in range(4)])
-    want.append(('lit', b'\n'))
-    badp = [(a, l) for (a, l) in w['lines'] if l != want]
-    why = ''
-    if badp:
-        a, l = badp[0]
-        k = next((i for i, (x, y) in enumerate(zip(l, want)) if x != y),
-                 min(len(l), len(want)))
-        why = 'music line {}carries {} at digit {} where the RAM layout ' \
-              'has {}'.format(
-                  'on the path [{}] '.format(', '.join(
-                      '{} is {}'.format(t, v) for (t, v) in a)) if a else '',
-                  l[k] if k < len(l) else 'nothing', k,
-                  want[k] if k < len(want) else 'nothing')
-    res.check(not badp and w['step'] == 4 and
-              sizes.get('music') == 4 * ref.MUSIC_PATTERNS, 'R-C16-music',
-              f.qual, 'line = flags byte, space, 4 channel bytes (low 7 '
-              'bits); flag bit k = bit 7 of RAM byte k',
-              '{} path(s)'.format(len(w['lines'])), why, f.loc)
-    r = codecs.music_reader_layout(ctx)
-    g = r['func']
-    ok = r['sep'] == b' ' and r['filter'] and len(r['bytes']) == 4
-    detail = ''
-    if ok:
-        for k, bv in enumerate(r['bytes']):
-            for bit in range(7):
+            k = d.const - 64
+            for bit in range(8):
                 a = LY.cell_single(bv.cell(bit))
                 p = codecs.digit_atom_pos(a) if a else None
-                if not (a and a[0][1] == 'C' and
-                        p == ('abs', 2 * k + (0 if bit >= 4 else 1),
-                              bit % 4)):
-                    ok = False
-                    detail = 'byte {} bit {} <- {}'.format(k, bit, a)
-            c7 = bv.cell(7)
-            srcs = set(c7.vars) if c7 is not TOP else set()
-            chan7 = (('digit', 'C', ((), 2 * k)), 3)
-            if k < 3:
-                fbit = ref.MUSIC_FLAG_OF_BYTE[k]
-                wantv = {chan7, (('digit', 'F', ((), 1)), fbit)}
-                if srcs != wantv or c7.table != 0b1110:
-                    ok = False
-                    detail = 'byte {} bit 7 <- {}'.format(k, c7)
-            else:
-                if srcs != {chan7}:
-                    ok = False
-                    detail = 'byte 3 bit 7 <- {}'.format(c7)
-    res.check(ok, 'R-C16-music', g.qual,
-              'reader: channel digits -> low 7 bits, flag bit k -> bit 7 of '
-              'byte k', '', 'music reader: ' + detail, g.loc)
+                wantp = ('abs', 2 * k + (0 if bit >= 4 else 1), bit % 4)
+                if p != wantp:
+                    hdr_ok = False
+        res.check(hdr_ok, 'R-C16-sfx', g2.qual,
+                  'reader: digits 0-7 -> bytes 64..67', '',
+                  'sfx header digits are stored elsewhere', g2.loc)
+        # note stores
+        nb = Aff({rd['id_var']: 68, rd['note_var']: 2}, 0)
+        got_bits = {}
+        for (arr, idx, bv, node) in rd['note_stores']:
+            d = idx - nb
+            if not d.is_const() or d.const not in (0, 1):
+                got_bits[('bad', str(idx))] = None
+                continue
+            for bit in range(8):
+                c = bv.cell(bit)
+                a = LY.cell_single(c)
+                if a is None:
+                    continue
+                p = codecs.digit_atom_pos(a, rd['note_var'], 8, 5)
+                if p and p[0] == 'note':
+                    got_bits[_word(d.const, bit)] = (p[1], p[2])
+        want_bits = {}
+        for di, cells in enumerate(expected_sfx_note_digits()):
+            for b, c in enumerate(cells):
+                if c[0] == 'self._data':
+                    want_bits[_word(c[1], c[2])] = (di, b)
+        res.check(got_bits == want_bits, 'R-C16-sfx', g2.qual,
+                  'reader: note digits -> RAM note bits per the format', '',
+                  'sfx reader: RAM note bit <- (digit, bit) differs from the '
+                  'format at {}'.format(sorted(
+                      (k, got_bits.get(k), want_bits.get(k))
+                      for k in set(got_bits) | set(want_bits)
+                      if got_bits.get(k) != want_bits.get(k))[:6]), g2.loc)
+
+    if 'writer' not in skip:
+        _part(res, 'R-C16-sfx', 'Sfx.to_lines', writer)
+    if 'reader' not in skip:
+        _part(res, 'R-C16-sfx', 'Sfx.from_lines', reader)
+
+
+def rule_music(ctx, res, sizes, skip=()):
+    def writer():
+        w = codecs.music_writer_layout(ctx)
+        f = w['func']
+        Z = ('const', 0)
+        flags = [Z, Z, Z]
+        for byte, fbit in ref.MUSIC_FLAG_OF_BYTE.items():
+            flags[fbit] = ('self._data', byte, 7)
+        want = [[Z, Z, Z, Z], flags + [Z], ('lit', b' ')]
+        for k in range(4):
+            want.append([('self._data', k, 4), ('self._data', k, 5),
+                         ('self._data', k, 6), Z])
+            want.append([('self._data', k, b) for b in range(4)])
+        want.append(('lit', b'\n'))
+        badp = [(a, l) for (a, l) in w['lines'] if l != want]
+        why = ''
+        if badp:
+            a, l = badp[0]
+            k = next((i for i, (x, y) in enumerate(zip(l, want)) if x != y),
+                     min(len(l), len(want)))
+            why = 'music line {}carries {} at digit {} where the RAM layout ' \
+                  'has {}'.format(
+                      'on the path [{}] '.format(', '.join(
+                          '{} is {}'.format(t, v) for (t, v) in a)) if a else '',
+                      l[k] if k < len(l) else 'nothing', k,
+                      want[k] if k < len(want) else 'nothing')
+        res.check(not badp and w['step'] == 4 and
+                  sizes.get('music') == 4 * ref.MUSIC_PATTERNS, 'R-C16-music',
+                  f.qual, 'line = flags byte, space, 4 channel bytes (low 7 '
+                  'bits); flag bit k = bit 7 of RAM byte k',
+                  '{} path(s)'.format(len(w['lines'])), why, f.loc)
+
+    def reader():
+        r = codecs.music_reader_layout(ctx)
+        g = r['func']
+        ok = r['sep'] == b' ' and r['filter'] and len(r['bytes']) == 4
+        detail = ''
+        if ok:
+            for k, bv in enumerate(r['bytes']):
+                for bit in range(7):
+                    a = LY.cell_single(bv.cell(bit))
+                    p = codecs.digit_atom_pos(a) if a else None
+                    if not (a and a[0][1] == 'C' and
+                            p == ('abs', 2 * k + (0 if bit >= 4 else 1),
+                                  bit % 4)):
+                        ok = False
+                        detail = 'byte {} bit {} <- {}'.format(k, bit, a)
+                c7 = bv.cell(7)
+                srcs = set(c7.vars) if c7 is not TOP else set()
+                chan7 = (('digit', 'C', ((), 2 * k)), 3)
+                if k < 3:
+                    fbit = ref.MUSIC_FLAG_OF_BYTE[k]
+                    wantv = {chan7, (('digit', 'F', ((), 1)), fbit)}
+                    if srcs != wantv or c7.table != 0b1110:
+                        ok = False
+                        detail = 'byte {} bit 7 <- {}'.format(k, c7)
+                else:
+                    if srcs != {chan7}:
+                        ok = False
+                        detail = 'byte 3 bit 7 <- {}'.format(c7)
+        res.check(ok, 'R-C16-music', g.qual,
+                  'reader: channel digits -> low 7 bits, flag bit k -> bit 7 of '
+                  'byte k', '', 'music reader: ' + detail, g.loc)
+
+    if 'writer' not in skip:
+        _part(res, 'R-C16-music', 'Music.to_lines', writer)
+    if 'reader' not in skip:
+        _part(res, 'R-C16-music', 'Music.from_lines', reader)
 
 
 def rule_png(ctx, res, sizes):
+    try:
+        rule_png_pixels(ctx, res)
+    except AnalysisError as e:
+        res.undecided('R-C16-png', 'pixel codec', 'analysis', str(e))
+    rule_png_memory(ctx, res, sizes)
+
+
+def rule_png_pixels(ctx, res):
+    from . import cxcodecs as XC
+    pe = None
+    try:
+        pe = XC.evaluate_png(ctx)
+    except AnalysisError:
+        pass
+    done = set()
+    if pe is not None and not isinstance(pe.reader, AnalysisError):
+        d = pe.reader_diff()
+        res.check(d is None, 'R-C16-png', pe.rf.qual,
+                  'reader: data byte = A1A0 R1R0 G1G0 B1B0 (planes 3,0,1,2)',
+                  'evaluated on a {}x{} image of symbolic pixels'.format(
+                      *XC.PNG_DIMS[:2]),
+                  'PNG reader does not follow the format: {}'.format(d),
+                  pe.rf.loc)
+        done.add('reader')
+    if pe is not None and not isinstance(pe.writer, AnalysisError):
+        d = pe.writer_diff()
+        res.check(d is None, 'R-C16-png', pe.wf.qual,
+                  'writer: two low bits of each plane <- data bits, upper '
+                  'six bits = source pixel, pixels past the data copied',
+                  'evaluated on a {}x{} image, {} data bytes'.format(
+                      XC.PNG_DIMS[0], XC.PNG_DIMS[1], XC.PNG_DIMS[3]),
+                  'PNG writer does not follow the format: {}'.format(d),
+                  pe.wf.loc)
+        done.add('writer')
+    if 'reader' not in done:
+        _png_reader_old(ctx, res)
+    if 'writer' not in done:
+        _png_writer_old(ctx, res)
+
+
+def _png_reader_old(ctx, res):
     r = codecs.png_reader_layout(ctx)
     f = r['func']
     want = [None] * 8
@@ -355,6 +483,9 @@ def rule_png(ctx, res, sizes):
               'reader: data byte = A1A0 R1R0 G1G0 B1B0 (planes 3,0,1,2)',
               '', 'PNG reader takes data bits from (plane, bit) {}'.format(
                   r['bits']), f.loc)
+
+
+def _png_writer_old(ctx, res):
     w = codecs.png_writer_layout(ctx)
     g = w['func']
     ok = set(w['planes']) == {0, 1, 2, 3} and w['copy_ok'] and w['test_ok']
@@ -372,6 +503,9 @@ def rule_png(ctx, res, sizes):
               'bits = source pixel, pixels past the data copied', '',
               'PNG writer plane contents: {}'.format(
                   {k: v[:3] for k, v in w['planes'].items()}), g.loc)
+
+
+def rule_png_memory(ctx, res, sizes):
     m = codecs.png_memory_order(ctx)
     want_order = [n for (n, _a, _b) in ref.MEMORY_MAP] + ['code', 'version']
     res.check(m['order'] == want_order, 'R-C16-png', m['writer'].qual,
@@ -406,13 +540,27 @@ def rule_png(ctx, res, sizes):
 
 def run(ctx, res):
     sizes = _region_sizes(ctx)
-    for rule in (rule_gfx, rule_hexrows, rule_sfx, rule_music, rule_png):
+    decided = {}
+    try:
+        decided = rule_lines_evaluated(ctx, res, sizes)
+    except AnalysisError as e:
+        res.info('R-C16-gfx', 'rule_lines_evaluated', 'analysis', str(e))
+    both = {'writer', 'reader'}
+    hexskip = decided.get('gff', set()) & decided.get('map', set())
+    for rule, skip in ((rule_gfx, decided.get('gfx', ())),
+                       (rule_hexrows, hexskip),
+                       (rule_sfx, decided.get('sfx', ())),
+                       (rule_music, decided.get('music', ()))):
         try:
-            rule(ctx, res, sizes)
+            rule(ctx, res, sizes, skip)
         except AnalysisError as e:
             res.undecided('R-C16-' + rule.__name__[5:], rule.__name__,
                           'analysis', str(e))
+    try:
+        rule_png(ctx, res, sizes)
+    except AnalysisError as e:
+        res.undecided('R-C16-png', 'rule_png', 'analysis', str(e))
     from .c05 import rule_format
     rule_format(ctx, res, rule_id='R-C16-stream')
-    res.require_min('R-C16-sfx', 12)
+    res.require_min('R-C16-sfx', 10)
     res.require_min('R-C16-png', 8)
